@@ -2,17 +2,23 @@ use crate::engine::{run_check, run_replay, Tier};
 use std::path::Path;
 
 pub mod c07;
+pub mod c13;
 pub mod c14;
 
 pub fn worker_main() {
-    eprintln!("worker mode not built yet");
-    std::process::exit(2);
+    crate::bg::install_quiet_panic_hook();
+    crate::worker::serve(|req, io| match req["op"].as_str() {
+        Some("c13") => c13::worker_c13(req, io),
+        Some("ping") => serde_json::json!({"pong": true}),
+        other => serde_json::json!({"error": format!("unknown op {other:?}")}),
+    });
 }
 
 macro_rules! table {
     ($id:expr, $f:ident, $arg:expr) => {
         match $id {
             "C07" => $f(&c07::C07, $arg),
+            "C13" => $f(&c13::C13, $arg),
             "C14" => $f(&c14::C14, $arg),
             other => {
                 eprintln!("unknown property {other}");
